@@ -214,6 +214,29 @@ def r03_5_shared(repo: Repo, rep: Report):
     rep.rule("R16.2", "cache hit needs a full core (shared with C16)")
     for f in (r11_1_serialisation, r12_4_candidates, r05_1_pass_dominance, r05_4_order_independence, r16_2_subset_test):
         f(repo, rep)
+    # C03 is the end-to-end statement: a false PASS results from any of -- a feasible path dropped (C02), a word
+    # operation modelled wrongly (C06), a query that is not the path's constraints or a refinement that is not exact
+    # (C11, C04 R04.2), an unsound cache hit (C16), state shared between sibling paths (C20 R20.1/R20.2), an
+    # assert/assume cheatcode with another meaning (C13), or an option of the test's own annotation that is dropped
+    # (C18 R18.2/R18.7, e.g. --panic-error-codes).  Their rules are evaluated here too.
+    from hsa.rules import c02, c04, c06, c11, c13, c16, c18, c20
+
+    shared = [
+        *[f for f in c02.RULES],
+        c04.r04_2_refine_exact,
+        c06.r06_1_zero_divisor, c06.r06_3_operator_table, c06.r06_4_wrapper_term_boundary, c06.r06_5_bool_closedness, c06.r06_6_byte_and_signextend,
+        c11.r11_2_constraint_ownership, c11.r11_3_dump_writer_reader, c11.r11_4_refine,
+        c13.r13_2_mk_cond, c13.r13_3_sign_and_arity, c13.r13_5_branching,
+        c16.r16_1_core_recording, c16.r16_3_ids_equal_asserted, c16.r16_4_id_stability, c16.r16_5_scope,
+        c18.r18_2_lookup, c18.r18_7_override_forwarding,
+        c20.r20_1_fork_copies, c20.r20_2_inactive_paths,
+    ]
+    seen = set()
+    for f in shared:
+        if f.__name__ in seen:
+            continue
+        seen.add(f.__name__)
+        f(repo, rep)
 
 
 RULES = [r03_1_classification, r03_2_panic_recognition, r03_3_setup_fail_closed, r03_4_verdict_domain, r03_5_shared]
